@@ -176,6 +176,8 @@ def as_ts(v):
         return TS([IntDec(v)])
     if isinstance(v, Opaque):
         return TS([OpaqueS(v.why)])
+    if is_sym(v) and z3.is_bool(v):
+        return TS([OpaqueS("True-or-False")])        # only ever part of a message
     if isinstance(v, EnumV) and isinstance(v.value, str):
         return TS([v.value])
     if isinstance(v, (IntDec, Text, Rep, Block, PBlock, Placement, Payload, Cond, OpaqueS)):
@@ -742,7 +744,7 @@ class VT:
             raise Unsupported("conditional piece changes the parser state")
         merged = dict(before)
         for k, v in after.items():
-            if k in ("log", "parser", "cmd_open", "interrupted", "TW", "TH", "line_pred", "on_command", "on_block", "on_placement", "glyphs", "placements"):
+            if k in ("log", "parser", "cmd_open", "interrupted", "TW", "TH", "line_pred", "on_command", "on_block", "on_pblock", "on_placement", "glyphs", "placements"):
                 continue
             if k not in before or isinstance(v, (tuple, dict)) or isinstance(before[k], (tuple, dict)):
                 if k in before and v is before[k]:
@@ -796,6 +798,8 @@ class VT:
             for p_ in pieces:
                 self.piece(p_)
             return
+        if g.get("on_pblock") is not None:
+            g["on_pblock"](self, b)
         self.oblige("padded-render-starts-at-column-0", z3.Or(to_z3(g["col"]) == 0, PH == 1), kind="geometry")
         self.oblige("never-wraps", to_z3(g["col"]) + PW <= to_z3(g["TW"]), kind="geometry")
         g["arow"], g["acol"] = g["row"] + b.t, If(PH == 1, g["col"], 0) + b.l
